@@ -55,7 +55,7 @@ func c09Scenario(name string, o tOpt, p int, expectAllOK bool) vr.Scenario {
 			// capacity of the transport: with a live, healthy, drained connection at
 			// hand (nothing unanswered, nothing unread, nobody closed it) one more
 			// query must be admitted by it, not cause a dial
-			if o.Closer || len(o.DialMenu) > 0 || o.WriteFailNth > 0 || c09NoProbe[name] {
+			if s.tr == nil || o.Closer || len(o.DialMenu) > 0 || o.WriteFailNth > 0 || c09NoProbe[name] {
 				return
 			}
 			vs.Sleep(time.Millisecond)
@@ -227,6 +227,8 @@ func TestVerifC09(t *testing.T) {
 		c09Scenario("pipeline-udp-L1-q1-c2", tOpt{Kind: "pipeline-udp", Callers: 2, MaxCq: 1, LazyQueue: 1, Srv: all}, pp(2, 3), true),
 		c09Scenario("pipeline-tcp-L2-q2-c3-cancel", tOpt{Kind: "pipeline-tcp", Callers: 3, Seq: 2, MaxCq: 2, LazyQueue: 2, Srv: all, CtxMode: []int{2, 0, 0}}, pp(1, 2), true),
 		c09Scenario("pipeline-tcp-L2-c2-dialfail-closer", tOpt{Kind: "pipeline-tcp", Callers: 2, MaxCq: 2, LazyQueue: 2, Srv: all, DialMenu: []int{0, 1}, Closer: true}, pp(1, 2), false),
+		c09Scenario("lazy-tcp-L2-q2-c3-withdraw", tOpt{Kind: "lazy-tcp", Callers: 3, MaxCq: 2, LazyQueue: 2, Srv: all, Withdraw: true}, pp(2, 3), false),
+		c09Scenario("lazy-tcp-L2-q2-c2-seq2-withdraw-slowdial", tOpt{Kind: "lazy-tcp", Callers: 2, Seq: 2, MaxCq: 2, LazyQueue: 2, Srv: all, Withdraw: true, DialMenu: []int{5}}, pp(1, 2), false),
 		c09Scenario("reuse-c2-seq2-cancel", tOpt{Kind: "reuse", Callers: 2, Seq: 2, Srv: srvOpt{Reorder: true}, CtxMode: []int{2, 0}}, pp(1, 2), false),
 		c09Scenario("reuse-c2-seq2", tOpt{Kind: "reuse", Callers: 2, Seq: 2, Srv: all}, pp(2, 3), true),
 	}
